@@ -15,11 +15,11 @@
    reports them as information.  The other clauses are representation-free laws. *)
 EXTENDS SysOrder, Json, IOUtils, TLCExt
 VARIABLE i
+(* Body(v) with v evaluated exactly once (operator arguments and LET definitions are re-evaluated at every mention) *)
+With(v, Body(_)) == CHOOSE r \in {Body(y) : y \in {v}} : TRUE
 Recs == JsonDeserialize(IOEnv.TRACE_FILE).recs
 Rec == Recs[i]
 SysOf(o) == TLCEval([nw |-> o.nw, rv |-> o.rv, cen |-> o.cen, sl |-> o.sl, sr |-> o.sr, mats |-> o.mats])
-Before == SysOf(Rec.before)
-After == SysOf(Rec.after)
 WellShaped(s) == /\ Len(s.cen) = s.nw /\ Len(s.sl) = s.nw /\ Len(s.sr) = s.nw
                  /\ \A k \in Keys(s) : k \in {"Ham", "SS"} /\ Len(s.mats[k]) = NR(s)
                       /\ \A r \in 1..NR(s) : Len(s.mats[k][r]) = s.nw /\ \A a \in 1..s.nw : Len(s.mats[k][r][a]) = s.nw
@@ -28,104 +28,109 @@ SameSystem(s, t) == /\ s.nw = t.nw /\ s.cen = t.cen /\ s.sl = t.sl /\ s.sr = t.s
                     /\ \A k \in Keys(s) : SameFunction(s, t, k)
 SpinAt0(s) == [c \in 1..3 |-> SpinMat(s.mats["SS"], FirstAt(s.rv, Z3), s.nw, c)]
 
-OrderClauses ==
-   LET b == Before  a == After
-       toInterlace == (Rec.op = "b2i") # Rec.bw
-       p == [x \in 1..Len(Rec.perm) |-> Rec.perm[x] + 1]
-       exp == CASE Rec.op = "b2i" -> SpinBlock2Interlace(b, Rec.bw) [] Rec.op = "i2b" -> SpinInterlace2Block(b, Rec.bw) [] OTHER -> Reorder(b, p)
-   IN [ in_model |-> WellShaped(b) /\ NoDup(b.rv) /\ ShiftsFollow(b) /\ (Rec.op # "reorder" => b.nw % 2 = 0) /\ (Rec.op = "reorder" => IsPerm(p, b.nw)),
+OrderClausesOf(R, b, a, back) ==
+   LET toInterlace == (R.op = "b2i") # R.bw
+       p == [x \in 1..Len(R.perm) |-> R.perm[x] + 1]
+       exp == CASE R.op = "b2i" -> SpinBlock2Interlace(b, R.bw) [] R.op = "i2b" -> SpinInterlace2Block(b, R.bw) [] OTHER -> Reorder(b, p)
+   IN [ in_model |-> WellShaped(b) /\ NoDup(b.rv) /\ ShiftsFollow(b) /\ (R.op # "reorder" => b.nw % 2 = 0) /\ (R.op = "reorder" => IsPerm(p, b.nw)),
         shaped |-> WellShaped(a),
-        labels |-> Rec.op # "reorder" => LabelsLaw(b, a, toInterlace),
-        permuted |-> Rec.op = "reorder" => /\ \A x \in 1..b.nw : a.cen[x] = b.cen[p[x]]
-                                           /\ \A k \in Keys(b) : \A r \in 1..NR(b) : \A x \in 1..b.nw : \A y \in 1..b.nw :
-                                                 ElemAt(a, k, b.rv[r], x, y) = b.mats[k][r][p[x]][p[y]],
+        labels |-> R.op # "reorder" => LabelsLaw(b, a, toInterlace),
+        permuted |-> R.op = "reorder" => /\ \A x \in 1..b.nw : a.cen[x] = b.cen[p[x]]
+                                         /\ \A k \in Keys(b) : \A r \in 1..NR(b) : \A x \in 1..b.nw : \A y \in 1..b.nw :
+                                               ElemAt(a, k, b.rv[r], x, y) = b.mats[k][r][p[x]][p[y]],
         shifts_follow |-> ShiftsFollow(a),
         rset_kept |-> SetOf(a.rv) = SetOf(b.rv),
-        round_trip |-> SameSystem(SysOf(Rec.back), b),
+        round_trip |-> SameSystem(back, b),
         info_equals_spec |-> a = exp ]
-PairsOf0 == [n \in 1..Len(Rec.pairs) |-> <<Rec.pairs[n][1], Rec.pairs[n][2]>>]
-PairsClauses ==
-   LET b == Before  a == After  pr == PairsOf0
-       exp == CASE Rec.method = "pairs" -> SetSpinPairs(b, pr) [] Rec.method = "interlaced" -> SetSpinInterlaced(b) [] OTHER -> DoubleSpin(b)
+OrderClauses == With(<<Rec, SysOf(Rec.before), SysOf(Rec.after), SysOf(Rec.back)>>, LAMBDA t : OrderClausesOf(t[1], t[2], t[3], t[4]))
+PairsClausesOf(R, b, a, pr) ==
+   LET exp == CASE R.method = "pairs" -> SetSpinPairs(b, pr) [] R.method = "interlaced" -> SetSpinInterlaced(b) [] OTHER -> DoubleSpin(b)
    IN [ in_model |-> WellShaped(b) /\ NoDup(b.rv) /\ Has(b.rv, Z3) /\ Len(pr) > 0 /\ PairsWellFormed(a.nw, pr)
-                     /\ (Rec.method = "double" => "SS" \notin Keys(b) /\ pr = InterlacedPairs(2 * b.nw))
-                     /\ (Rec.method = "interlaced" => pr = InterlacedPairs(b.nw)),
+                     /\ (R.method = "double" => "SS" \notin Keys(b) /\ pr = InterlacedPairs(2 * b.nw))
+                     /\ (R.method = "interlaced" => pr = InterlacedPairs(b.nw)),
         shaped |-> WellShaped(a) /\ "SS" \in Keys(a) /\ a.rv = b.rv,
         pauli |-> PauliAlgebra(SpinAt0(a), a.nw, pr),
         only_r0 |-> SSOnlyAtR0(a),
-        others_untouched |-> IF Rec.method = "double"
+        others_untouched |-> IF R.method = "double"
                              THEN a.nw = 2 * b.nw /\ a.cen = RvDoubleSpin(b.cen) /\ (ShiftsFollow(b) => ShiftsFollow(a))
                                   /\ \A k \in Keys(b) : a.mats[k] = DoubleTensor(b.mats[k], b.nw)
                              ELSE a.nw = b.nw /\ a.cen = b.cen /\ a.sl = b.sl /\ a.sr = b.sr /\ \A k \in Keys(b) \ {"SS"} : a.mats[k] = b.mats[k],
         info_equals_spec |-> exp.err = "" /\ a = exp.sys ]
-(* SS(R=0) |axis| as integers: Rec.ss[a][b][c] = [re, im]; Rec.rest_zero: every other R-block is zero (looked at by the harness) *)
-EigenClauses ==
-   LET nw == Len(Rec.spins) IN
-   [ in_model |-> Rec.norm * Rec.norm = Dot(Rec.axis, Rec.axis) /\ Rec.norm > 0,
-     refusal |-> (Rec.err # "") = (Rec.had_ss /\ ~Rec.reset),
-     along_axis |-> Rec.err = "" => /\ Len(Rec.ss) = nw
-                                    /\ \A a \in 1..nw : \A b \in 1..nw : \A c \in 1..3 :
-                                          Rec.ss[a][b][c] = IF a = b THEN <<Rec.spins[a] * Rec.axis[c], 0>> ELSE GZ,
-     only_r0 |-> Rec.err = "" => Rec.rest_zero,
-     info_exception_class |-> Rec.err \in {"", "RuntimeError"} ]
-MvIdx(k) == CHOOSE n \in 1..Len(Rec.mv) : Rec.mv[n][1] = k
-MvT2 == [k \in {Rec.mv[n][1] : n \in 1..Len(Rec.mv)} |-> Rec.mv[MvIdx(k)][2]]        \* Rec.mv = [[key, T2], ..]
-(* the recorded dictionary of one key as a function <<R, a, b>> -> components; Rec.sparse = [[key, [[R, a, b, comps], ..]], ..] *)
-SparseList(k) == Rec.sparse[CHOOSE n \in 1..Len(Rec.sparse) : Rec.sparse[n][1] = k][2]
-SparseClauses ==
-   LET b == Before  a == After  mv == MvT2 IN
-   [ in_model |-> WellShaped(b) /\ NoDup(b.rv) /\ DOMAIN mv \subseteq Keys(b) /\ NoTie(b, mv) /\ {Rec.sparse[n][1] : n \in 1..Len(Rec.sparse)} = DOMAIN mv,
+PairsClauses == With(<<Rec, SysOf(Rec.before), SysOf(Rec.after), [n \in 1..Len(Rec.pairs) |-> <<Rec.pairs[n][1], Rec.pairs[n][2]>>]>>,
+                     LAMBDA t : PairsClausesOf(t[1], t[2], t[3], t[4]))
+(* SS(R=0) |axis| as integers: R.ss[a][b][c] = [re, im]; R.rest_zero: every other R-block is zero (looked at by the harness) *)
+EigenClausesOf(R) ==
+   LET nw == Len(R.spins) IN
+   [ in_model |-> R.norm * R.norm = Dot(R.axis, R.axis) /\ R.norm > 0,
+     refusal |-> (R.err # "") = (R.had_ss /\ ~R.reset),
+     along_axis |-> R.err = "" => /\ Len(R.ss) = nw
+                                  /\ \A a \in 1..nw : \A b \in 1..nw : \A c \in 1..3 :
+                                        R.ss[a][b][c] = IF a = b THEN <<R.spins[a] * R.axis[c], 0>> ELSE GZ,
+     only_r0 |-> R.err = "" => R.rest_zero,
+     info_exception_class |-> R.err \in {"", "RuntimeError"} ]
+EigenClauses == With(Rec, LAMBDA t : EigenClausesOf(t))
+(* R.mv = [[key, T2], ..]; R.sparse = [[key, [[R, a, b, comps], ..]], ..]: the recorded dictionaries as lists of elements *)
+MvT2(R) == [k \in {R.mv[n][1] : n \in 1..Len(R.mv)} |-> R.mv[CHOOSE n \in 1..Len(R.mv) : R.mv[n][1] = k][2]]
+SparseLists(R) == [k \in {R.sparse[n][1] : n \in 1..Len(R.sparse)} |-> R.sparse[CHOOSE n \in 1..Len(R.sparse) : R.sparse[n][1] = k][2]]
+SparseClausesOf(b, a, mv, SL, e) ==
+   [ in_model |-> WellShaped(b) /\ NoDup(b.rv) /\ DOMAIN mv \subseteq Keys(b) /\ NoTie(b, mv) /\ DOMAIN SL = DOMAIN mv,
      (* every listed element is an element of the system that reaches the threshold, with its value, and is listed once *)
-     dict_sound |-> \A k \in DOMAIN mv : LET L == SparseList(k) IN
+     dict_sound |-> \A k \in DOMAIN mv : LET L == SL[k] IN
                        /\ \A n \in 1..Len(L) : /\ Has(b.rv, L[n][1]) /\ L[n][2] \in 0..(b.nw - 1) /\ L[n][3] \in 0..(b.nw - 1)
                                                /\ L[n][4] = ElemAt(b, k, L[n][1], L[n][2] + 1, L[n][3] + 1)
                                                /\ ReachesMax(L[n][4], mv[k])
                        /\ Cardinality({<<L[n][1], L[n][2], L[n][3]>> : n \in 1..Len(L)}) = Len(L),
      (* every element that reaches the threshold is listed *)
-     dict_complete |-> \A k \in DOMAIN mv : \A r \in 1..NR(b) : \A x \in 1..b.nw : \A y \in 1..b.nw :
-                          ReachesMax(b.mats[k][r][x][y], mv[k]) =>
-                             \E n \in 1..Len(SparseList(k)) : SparseList(k)[n][1] = b.rv[r] /\ SparseList(k)[n][2] = x - 1 /\ SparseList(k)[n][3] = y - 1,
+     dict_complete |-> \A k \in DOMAIN mv : LET S == {<<SL[k][n][1], SL[k][n][2], SL[k][n][3]>> : n \in 1..Len(SL[k])} IN
+                          \A r \in 1..NR(b) : \A x \in 1..b.nw : \A y \in 1..b.nw :
+                             ReachesMax(b.mats[k][r][x][y], mv[k]) => <<b.rv[r], x - 1, y - 1>> \in S,
      shaped |-> WellShaped(a),
      round_trip |-> LawSparse(b, a, mv),
-     info_rset |-> SetOf(a.rv) = SetOf(SparseRoundTrip(b, mv).rv),
-     info_equals_spec |-> LET e == SparseRoundTrip(b, mv) IN Keys(e) = Keys(a) /\ \A k \in Keys(e) : SameFunction(e, a, k) ]
-RevClauses ==
-   LET rv == Rec.rv  nw == Rec.nw  X == Rec.x
+     info_rset |-> SetOf(a.rv) = SetOf(e.rv),
+     info_equals_spec |-> Keys(e) = Keys(a) /\ \A k \in Keys(e) : SameFunction(e, a, k) ]
+SparseClauses == With(<<SysOf(Rec.before), SysOf(Rec.after), MvT2(Rec), SparseLists(Rec)>>,
+                      LAMBDA t : With(SparseRoundTrip(t[1], t[3]), LAMBDA e : SparseClausesOf(t[1], t[2], t[3], t[4], e)))
+RevClausesOf(R) ==
+   LET rv == R.rv  nw == R.nw  X == R.x
        rr == RvReverseR(rv) IN
    [ in_model |-> NoDup(rv) /\ Len(X) = Len(rv),
-     no_failure |-> Rec.err = "",
-     valid |-> Rec.err = "" => ReverseRValid(rv, Rec.lstR, Rec.lstmR),
-     counting |-> Rec.err = "" => Len(Rec.lstR) + Cardinality(NotFound(rv)) = Len(rv),
-     conj |-> Rec.err = "" => Rec.conj = RvConjXXR(rv, X, nw, 1),
-     twice |-> Rec.err = "" => \A r \in 1..Len(rv) : Rec.conj2[r] = IF Partners(rv, r) # {} THEN X[r] ELSE MatZeroE(nw, 1),
-     info_order |-> Rec.err = "" => Rec.lstR = rr.lstR /\ Rec.lstmR = rr.lstmR,
-     info_warnings |-> Rec.err = "" => Rec.nwarn = (IF Rec.ignore THEN 0 ELSE Cardinality(NotFound(rv))) ]
-MergeClauses ==
-   LET lists == Rec.lists IN
+     no_failure |-> R.err = "",
+     valid |-> R.err = "" => ReverseRValid(rv, R.lstR, R.lstmR),
+     counting |-> R.err = "" => Len(R.lstR) + Cardinality(NotFound(rv)) = Len(rv),
+     conj |-> R.err = "" => R.conj = RvConjXXR(rv, X, nw, 1),
+     twice |-> R.err = "" => \A r \in 1..Len(rv) : R.conj2[r] = IF Partners(rv, r) # {} THEN X[r] ELSE MatZeroE(nw, 1),
+     info_order |-> R.err = "" => R.lstR = rr.lstR /\ R.lstmR = rr.lstmR,
+     info_warnings |-> R.err = "" => R.nwarn = (IF R.ignore THEN 0 ELSE Cardinality(NotFound(rv))) ]
+RevClauses == With(Rec, LAMBDA t : RevClausesOf(t))
+MergeClausesOf(R) ==
+   LET lists == R.lists IN
    [ in_model |-> \A n \in 1..Len(lists) : NoDup(lists[n]),
-     no_failure |-> Rec.err = "",
-     valid |-> Rec.err = "" => MergeValid(lists, Rec.merged, Rec.maps),
-     injective |-> Rec.err = "" => MapsInjective(lists, Rec.maps),
-     info_order |-> Rec.err = "" => Rec.merged = MergeRvectors(lists).rv ]
-ExzClauses ==
-   LET L == ExcludeLaws(Rec.rv, Rec.mats, Rec.nrv, Rec.nmats, Rec.T2) IN
-   [ in_model |-> NoDup(Rec.rv) /\ (Rec.T2 = 0 \/ Rec.T2 % 2 = 1),
-     no_failure |-> Rec.err = "",
-     nothing_lost |-> Rec.err = "" => L.nothing_lost,
-     no_zero_left |-> Rec.err = "" => L.no_zero_left,
-     values |-> Rec.err = "" => L.values,
-     no_dup |-> Rec.err = "" => L.no_dup,
-     info_order |-> Rec.err = "" => Rec.nrv = RvExcludeZeros(Rec.rv, Rec.mats, Rec.T2).rv ]
-IdxClauses ==
-   LET rv == Rec.rv IN
-   [ in_model |-> NoDup(rv) /\ Len(Rec.queries) = Len(Rec.answers),
-     ir |-> \A n \in 1..Len(Rec.queries) :
-               IF Has(rv, Rec.queries[n]) THEN Rec.answers[n].err = "" /\ rv[Rec.answers[n].val + 1] = Rec.queries[n] ELSE Rec.answers[n].err # "",
-     ir0 |-> IF Has(rv, Z3) THEN Rec.ir0.err = "" /\ rv[Rec.ir0.val + 1] = Z3 ELSE Rec.ir0.err # "",
-     index |-> /\ {Rec.index[n][1] : n \in 1..Len(Rec.index)} = SetOf(rv) /\ Len(Rec.index) = Len(rv)
-               /\ \A n \in 1..Len(Rec.index) : rv[Rec.index[n][2] + 1] = Rec.index[n][1],
-     info_exception_class |-> \A n \in 1..Len(Rec.queries) : Rec.answers[n].err \in {"", "ValueError"} ]
-(* from_sparse without centres: num_wann given (Rec.given > 0) or derived from the largest index; centres are zero *)
+     no_failure |-> R.err = "",
+     valid |-> R.err = "" => MergeValid(lists, R.merged, R.maps),
+     injective |-> R.err = "" => MapsInjective(lists, R.maps),
+     info_order |-> R.err = "" => R.merged = MergeRvectors(lists).rv ]
+MergeClauses == With(Rec, LAMBDA t : MergeClausesOf(t))
+ExzClausesOf(R) ==
+   LET L == ExcludeLaws(R.rv, R.mats, R.nrv, R.nmats, R.T2) IN
+   [ in_model |-> NoDup(R.rv) /\ (R.T2 = 0 \/ R.T2 % 2 = 1),
+     no_failure |-> R.err = "",
+     nothing_lost |-> R.err = "" => L.nothing_lost,
+     no_zero_left |-> R.err = "" => L.no_zero_left,
+     values |-> R.err = "" => L.values,
+     no_dup |-> R.err = "" => L.no_dup,
+     info_order |-> R.err = "" => R.nrv = RvExcludeZeros(R.rv, R.mats, R.T2).rv ]
+ExzClauses == With(Rec, LAMBDA t : ExzClausesOf(t))
+IdxClausesOf(R) ==
+   LET rv == R.rv IN
+   [ in_model |-> NoDup(rv) /\ Len(R.queries) = Len(R.answers),
+     ir |-> \A n \in 1..Len(R.queries) :
+               IF Has(rv, R.queries[n]) THEN R.answers[n].err = "" /\ rv[R.answers[n].val + 1] = R.queries[n] ELSE R.answers[n].err # "",
+     ir0 |-> IF Has(rv, Z3) THEN R.ir0.err = "" /\ rv[R.ir0.val + 1] = Z3 ELSE R.ir0.err # "",
+     index |-> /\ {R.index[n][1] : n \in 1..Len(R.index)} = SetOf(rv) /\ Len(R.index) = Len(rv)
+               /\ \A n \in 1..Len(R.index) : rv[R.index[n][2] + 1] = R.index[n][1],
+     info_exception_class |-> \A n \in 1..Len(R.queries) : R.answers[n].err \in {"", "ValueError"} ]
+IdxClauses == With(Rec, LAMBDA t : IdxClausesOf(t))
+(* from_sparse without centres: num_wann given (given > 0) or derived from the largest index; centres are zero *)
 NocenClauses ==
    [ no_failure |-> Rec.err = "",
      num_wann |-> Rec.err = "" => Rec.nw = (IF Rec.given = 0 THEN Rec.maxidx + 1 ELSE Rec.given),
@@ -139,7 +144,8 @@ Clauses == CASE Rec.kind = "order" -> OrderClauses
              [] Rec.kind = "exz" -> ExzClauses
              [] Rec.kind = "idx" -> IdxClauses
              [] Rec.kind = "nocen" -> NocenClauses
-Report == \A n \in DOMAIN Clauses : Clauses[n] \/ PrintT(<<"BAD", i, n>>)
+(* the table of clauses is evaluated once per record *)
+Report == With(Clauses, LAMBDA C : \A n \in DOMAIN C : C[n] \/ PrintT(<<"BAD", i, n>>))
 RecInit == i \in 1..Len(Recs)
 RecSpec == RecInit /\ [][UNCHANGED i]_i
 =============================================================================
